@@ -2,6 +2,7 @@ package c05
 
 import (
 	"fmt"
+	"sort"
 	"strings"
 
 	"verifharness/fw"
@@ -383,6 +384,226 @@ func genRound(r *rng.R) fw.Case {
 	return fw.Case{Input: in.String(), Tags: tags}
 }
 
+// ---- histories: load classes; place; reload (some classes edited under the same key); place again … ----------------
+
+func cloneNode(n *sx.Node) *sx.Node {
+	if !n.IsList {
+		return sx.A(n.Atom)
+	}
+	c := sx.L()
+	for _, x := range n.List {
+		c.Add(cloneNode(x))
+	}
+	return c
+}
+
+var histCmds = []string{"true", "sleep 1", "o2-readout --id 1", "o2-qc"}
+
+func otherOf[T comparable](r *rng.R, xs []T, cur T) T {
+	for i := 0; i < 8; i++ {
+		if x := rng.Pick(r, xs); x != cur {
+			return x
+		}
+	}
+	return cur
+}
+
+// a template whose constraints and channels matter for where it can go and what it is given
+func genHistClass(r *rng.R) *sx.Node {
+	cts := sx.L()
+	if r.P(2, 3) {
+		cts.Add(sx.L(sx.A("role"), sx.A(rng.Pick(r, []string{"flp", "epn"})), sx.I(0)))
+	}
+	if r.P(1, 8) {
+		cts.Add(sx.L(sx.A("detector"), sx.A(rng.Pick(r, []string{"TPC", "ITS"})), sx.I(0)))
+	}
+	static := sx.L()
+	if r.P(1, 4) {
+		b := rng.Pick(r, []int{8000, 8100, 9000, 9002, 30000})
+		static.Add(sx.L(sx.I(b), sx.I(b+r.Range(0, 2))))
+	}
+	return sx.L(cts, sx.I(rng.Pick(r, []int{0, 1, 2, 4})), sx.I(rng.Pick(r, []int{0, 4, 512})), sx.A(exprOf(static, nil)),
+		genInb(r, 3), sx.A(rng.Pick(r, histCmds)))
+}
+
+// editClass: the template edited in place (same key). Returns the edited copy.
+func editClass(r *rng.R, c *sx.Node, kind string) *sx.Node {
+	n := cloneNode(c)
+	switch kind {
+	case "constraints":
+		cts := n.At(0)
+		switch {
+		case cts.Len() == 0:
+			cts.Add(sx.L(sx.A("role"), sx.A(rng.Pick(r, []string{"flp", "epn"})), sx.I(0)))
+		case r.P(1, 5):
+			cts.List = cts.List[1:]
+		default:
+			k := cts.At(r.N(cts.Len()))
+			switch k.At(0).Str() {
+			case "role":
+				k.List[1] = sx.A(otherOf(r, []string{"flp", "epn"}, k.At(1).Str()))
+			case "detector":
+				k.List[1] = sx.A(otherOf(r, []string{"TPC", "ITS"}, k.At(1).Str()))
+			default:
+				k.List[1] = sx.A(otherOf(r, plainVals, k.At(1).Str()))
+			}
+		}
+	case "bind":
+		inb := n.At(4)
+		switch {
+		case inb.Len() == 0 || (inb.Len() < 4 && r.P(1, 2)):
+			inb.Add(sx.B(r.P(4, 5)))
+		case r.P(1, 2):
+			inb.List = inb.List[:inb.Len()-1]
+		default:
+			i := r.N(inb.Len())
+			inb.List[i] = sx.B(!inb.At(i).Bool())
+		}
+	case "cpu":
+		n.List[1] = sx.I(otherOf(r, []int{0, 1, 2, 4, 8}, n.At(1).Int()))
+	case "memory":
+		n.List[2] = sx.I(otherOf(r, []int{0, 4, 512, 1024}, n.At(2).Int()))
+	case "ports":
+		n.List[3] = sx.A(otherOf(r, []string{"", "8000", "8000-8002", "9000", "9001-9002", "30000"}, n.At(3).Str()))
+	case "command":
+		n.List[5] = sx.A(otherOf(r, histCmds, n.At(5).Str()))
+	}
+	return n
+}
+
+var histEdits = []string{"same", "constraints", "constraints", "constraints", "bind", "bind", "bind", "cpu", "memory", "ports", "command"}
+
+func genHist(r *rng.R) fw.Case {
+	nAg := rng.Pick(r, []int{2, 2, 3})
+	type agent struct{ attrs *sx.Node }
+	var agents []agent
+	var machines []string
+	for i := 0; i < nAg; i++ {
+		m := fmt.Sprintf("m%d", i)
+		machines = append(machines, m)
+		role := rng.Pick(r, []string{"flp", "epn", "flp,epn"})
+		if i == 0 {
+			role = "flp"
+		} else if i == 1 && !r.P(1, 6) {
+			role = "epn"
+		}
+		attrs := sx.L(sx.L(sx.A("machine_id"), sx.A(m)), sx.L(sx.A("role"), sx.A(role)))
+		if r.P(1, 2) {
+			attrs.Add(sx.L(sx.A("detector"), sx.A(rng.Pick(r, []string{"TPC", "ITS", "TPC,ITS"}))))
+		}
+		agents = append(agents, agent{attrs})
+	}
+	nKeys := r.Range(1, 3)
+	nSteps := rng.Pick(r, []int{2, 2, 3, 3, 4})
+	cur := map[int]*sx.Node{}
+	tagSet := map[string]bool{}
+	in := sx.L(sx.A("hist"))
+	reloads := 0
+	for s := 0; s < nSteps; s++ {
+		loads := sx.L()
+		for k := 0; k < nKeys; k++ {
+			c, held := cur[k]
+			switch {
+			case !held:
+				if s == 0 && !r.P(9, 10) || s > 0 && !r.P(1, 2) {
+					continue // loaded by a later workflow, or never
+				}
+				c = genHistClass(r)
+			case !r.P(2, 3):
+				continue // this workflow does not use the class
+			default:
+				kind := rng.Pick(r, histEdits)
+				c = editClass(r, c, kind)
+				tagSet["hist:edit="+kind] = true
+				if r.P(1, 6) {
+					k2 := rng.Pick(r, histEdits)
+					c = editClass(r, c, k2)
+					tagSet["hist:edit="+k2] = true
+					if k2 != kind {
+						tagSet["hist:edit-in-two-places"] = true
+					}
+				}
+				reloads++
+			}
+			loads.Add(sx.L(sx.I(k), c))
+			cur[k] = c
+			if r.P(1, 15) {
+				// the same class twice in one load (two roles of the workflow name it): the later one stays
+				c2 := editClass(r, c, rng.Pick(r, histEdits))
+				loads.Add(sx.L(sx.I(k), c2))
+				cur[k] = c2
+				tagSet["hist:twice-in-one-load"] = true
+			}
+		}
+		if loads.Len() > 1 && r.P(1, 4) {
+			// order of distinct keys within a load is of no consequence; keep the relative order of equal keys
+			first := loads.List[0]
+			if first.At(0).Int() != loads.List[loads.Len()-1].At(0).Int() {
+				ok := true
+				for _, l := range loads.List[1:] {
+					if l.At(0).Int() == first.At(0).Int() {
+						ok = false
+					}
+				}
+				if ok {
+					loads.List = append(loads.List[1:], first)
+				}
+			}
+		}
+		offers := sx.L()
+		for _, a := range agents {
+			if r.P(1, 7) && offers.Len()+1 < len(agents) {
+				continue // no offer from this agent this time
+			}
+			res := sx.L(sx.I(rng.Pick(r, []int{4, 8, 16, 64})), sx.I(rng.Pick(r, []int{2048, 4096, 65536})), genGoodPorts(r))
+			offers.Add(sx.L(cloneNode(a.attrs), res))
+		}
+		if offers.Len() == 0 {
+			offers.Add(sx.L(cloneNode(agents[0].attrs), sx.L(sx.I(16), sx.I(4096), genGoodPorts(r))))
+		}
+		root := sx.L()
+		if r.P(1, 6) {
+			root.Add(sx.L(sx.A("detector"), sx.A(rng.Pick(r, []string{"TPC", "ITS"})), sx.I(0)))
+		}
+		nDesc := rng.Pick(r, []int{1, 1, 2, 2, 3})
+		descs := sx.L()
+		for i := 0; i < nDesc; i++ {
+			lv := sx.L()
+			k := r.Range(1, 2)
+			for j := 0; j < k; j++ {
+				l := sx.L()
+				if j == 0 && r.P(1, 4) {
+					l.Add(sx.L(sx.A("machine_id"), sx.A(rng.Pick(r, machines)), sx.I(0)))
+				}
+				if r.P(1, 10) {
+					l.Add(sx.L(sx.A("role"), sx.A(rng.Pick(r, []string{"flp", "epn"})), sx.I(0))) // the role overrides the template
+				}
+				lv.Add(l)
+			}
+			var ci *sx.Node = sx.I(r.N(nKeys))
+			if r.P(1, 30) {
+				ci = sx.A("-")
+			}
+			descs.Add(sx.L(lv, ci))
+		}
+		in.Add(sx.L(loads, root, offers, descs))
+	}
+	tags := []string{"hist", fmt.Sprintf("hist:steps=%d", nSteps)}
+	if reloads > 0 {
+		tags = append(tags, "hist:reload")
+	}
+	var ts []string
+	for t := range tagSet {
+		ts = append(ts, t)
+	}
+	sort.Strings(ts)
+	tags = append(tags, ts...)
+	if histCrashRisk(in) {
+		tags = append(tags, "hist:in-child-process")
+	}
+	return fw.Case{Input: in.String(), Tags: tags}
+}
+
 func generate(tier string, r *rng.R) []fw.Case {
 	scale := 1
 	if tier == "thorough" {
@@ -401,6 +622,7 @@ func generate(tier string, r *rng.R) []fw.Case {
 	add(3500, genParse)
 	add(1200, genMk)
 	add(1800, genRound)
+	add(600, genHist)
 	return cs
 }
 
@@ -436,6 +658,44 @@ func nontrivial(input, obs string) bool {
 		return false
 	case "round":
 		return in.At(4).Len() >= 2 && strings.Contains(obs, "(A ") && in.At(3).Len() >= 1
+	case "hist":
+		// a class loaded again under its key with another definition, and a task of that class launched afterwards
+		last := map[int]string{}
+		changedAt := map[int]int{}
+		for i, st := range in.List[1:] {
+			for _, ld := range st.At(0).List {
+				k, def := ld.At(0).Int(), ld.At(1).String()
+				if prev, ok := last[k]; ok && prev != def {
+					if _, seen := changedAt[k]; !seen {
+						changedAt[k] = i
+					}
+				}
+				last[k] = def
+			}
+		}
+		o, err := sx.Parse(obs)
+		if err != nil || o.Len() != 3 || o.At(2).Len() != in.Len() {
+			return false
+		}
+		for i, st := range in.List[1:] {
+			rp := o.At(2).At(i + 1)
+			if rp.Len() < 2 {
+				continue
+			}
+			for _, a := range rp.At(1).List {
+				for _, t := range a.List[2:] {
+					d := t.At(0).Int()
+					if d < st.At(3).Len() {
+						if ci := st.At(3).At(d).At(1); ci.Str() != "-" {
+							if at, ok := changedAt[ci.Int()]; ok && at <= i {
+								return true
+							}
+						}
+					}
+				}
+			}
+		}
+		return false
 	}
 	return false
 }
@@ -505,6 +765,37 @@ func shrinkCands(input string) []string {
 			dropEach(in, []int{1, i, 0}, 0, &out)
 			dropEach(in, []int{1, i, 4}, 0, &out)
 		}
+	case "hist":
+		// drop a whole step (its loads go with it), merge nothing; then loads, descriptors, offers, levels, constraints, channels
+		if in.Len() > 2 {
+			for i := 1; i < in.Len(); i++ {
+				c := cloneNode(in)
+				c.List = append(append([]*sx.Node{}, c.List[:i]...), c.List[i+1:]...)
+				out = append(out, c.String())
+			}
+		}
+		for i := 1; i < in.Len(); i++ {
+			dropEach(in, []int{i, 3}, 0, &out)
+			dropEach(in, []int{i, 0}, 0, &out)
+			dropEach(in, []int{i, 2}, 1, &out)
+			dropEach(in, []int{i, 1}, 0, &out)
+		}
+		for i := 1; i < in.Len(); i++ {
+			st := in.At(i)
+			for j := 0; j < st.At(3).Len(); j++ {
+				dropEach(in, []int{i, 3, j, 0}, 1, &out)
+				for l := 0; l < st.At(3).At(j).At(0).Len(); l++ {
+					dropEach(in, []int{i, 3, j, 0, l}, 0, &out)
+				}
+			}
+			for j := 0; j < st.At(0).Len(); j++ {
+				dropEach(in, []int{i, 0, j, 1, 0}, 0, &out)
+				dropEach(in, []int{i, 0, j, 1, 4}, 0, &out)
+			}
+			for j := 0; j < st.At(2).Len(); j++ {
+				dropEach(in, []int{i, 2, j, 0}, 0, &out)
+			}
+		}
 	}
 	return out
 }
@@ -516,18 +807,23 @@ func init() {
 		Generate:   generate,
 		RunImpl:    runImpl,
 		Nontrivial: nontrivial,
-		Rule: "seven case kinds, quick = 6000 Attributes.Satisfy (agent attributes incl. nil, duplicates, comma lists, non-text; 0-4 constraints mostly built " +
+		Rule: "eight case kinds, quick = 6000 Attributes.Satisfy (agent attributes incl. nil, duplicates, comma lists, non-text; 0-4 constraints mostly built " +
 			"from the agent's own attributes, some unsupported operators) + 2500 MergeParent + 1500 getConstraints/BuildDescriptorConstraints on real role trees (2-5 levels) " +
 			"+ 4000 Resources.Satisfy (canonical and a few non-canonical offers, static ranges mostly inside the offer, 0-4 channels) + 3500 RangesFromExpression " +
 			"(70% printed range lists with stray blanks, 30% malformed) + 1200 makeTaskForMesosResources (healthy and scarce port sets) + 1800 whole OFFERS rounds " +
-			"(1-4 offers, 0-5 descriptors with 1-3 role levels + root + class constraints, machine_id pre-matching, template YAML through the repo's unmarshallers); thorough = x10. " +
+			"(1-4 offers, 0-5 descriptors with 1-3 role levels + root + class constraints, machine_id pre-matching, template YAML through the repo's unmarshallers) " +
+			"+ 600 HISTORIES on one manager (2-4 steps, each = a workflow load of 0-3 class definitions through Classes.UpdateClass, then a whole OFFERS round on 1-3 agents incl. an flp and an epn one; " +
+			"a class held already is reloaded under its key unchanged or edited in constraints / bind / cpu / memory / ports / command, sometimes twice in one load; classes first loaded late or never); thorough = x10. " +
 			"non-trivial: sat >=2 attributes and >=2 constraints; merge with a shared attribute; eff >=3 levels; res with static ranges or channels; parse with ',' or '-'; " +
-			"mk with a TCP channel; round with >=2 descriptors and at least one task launched; distinct by input text",
+			"mk with a TCP channel; round with >=2 descriptors and at least one task launched; " +
+			"hist with a class reloaded under its key with another definition and a task of that class launched afterwards; distinct by input text",
 		Shrink:  shrinkCands,
 		Workers: 1,
 		TrustedBase: []string{
 			"harness/props/c05 (YAML builders for templates and role trees, decoding of ACCEPT/DECLINE calls, mode probe on two fixed witnesses)",
 			"/repo/core/task/verif_hooks_c05.go (build tag verif): schedulerState with a recording calls.Caller instead of the Mesos master; synchronous makeTaskForMesosResources",
+			"/repo/core/task/verif_hook_c13.go: Manager.VerifC13AddClass = m.classes.UpdateClass(key, class), the body of the loop of Manager.RefreshClasses (histories load their classes through it; RefreshClasses itself reads the YAML from a template repository on disk)",
+			"harness/props/c05/facts.go: go/ast reading of Classes.UpdateClass (held key: one unconditional `*held = *class`; new key: one insert; no other branch, no return) and of the loop of Manager.RefreshClasses (every class of getTaskClassList goes to UpdateClass); Class.Equals tabulated on the linked code over pairs that differ in one field",
 			"harness/props/c05/facts.go: go/ast reading of makeTaskForMesosResources (Remove literals; emptiness test in front of every Min(); static ranges subtracted before the first draw; cpus/mem subtracted after they enter the request)",
 			"gopkg.in/yaml.v3 + the repo's UnmarshalYAML methods for task templates and roles",
 			"the Lean driver tries every order in which the per-offer goroutines may have taken descriptorsMu (<= 24) and accepts if one reproduces the observation",
